@@ -1,5 +1,7 @@
 """C10 - strictness options do what they say (DESIGN §C10)."""
 import copy
+import dataclasses as _dc
+import typing as _t
 import json
 import warnings
 
@@ -73,6 +75,8 @@ def cases(draw):
 
 
 def execute(case, col):
+    if case.get("fam") == "fixed":
+        return execute_fixed(case, col)
     try:
         model = M.Model(case["spec"])
     except Exception as e:
@@ -425,12 +429,96 @@ def _json(case, col, model):
     return judge(case, model, got, expect_error, expect_warning, expected_obj, original, injected, fam)
 
 
+# ---------------------------------------------------------------------------
+# a fixed model for two field kinds the ModelSpec generator does not produce: a union of model classes and an `object`
+# typed element; every injection x option combination x handler is enumerated
+
+
+@_dc.dataclass
+class UA:
+    a: _t.Optional[int] = _dc.field(default=None, metadata={"type": "Element"})
+    k: _t.Optional[str] = _dc.field(default=None, metadata={"type": "Attribute"})
+
+
+@_dc.dataclass
+class UB:
+    b: _t.Optional[str] = _dc.field(default=None, metadata={"type": "Element"})
+
+
+@_dc.dataclass
+class Host:
+    class Meta:
+        name = "host"
+    u: _t.Optional[_t.Union[UA, UB]] = _dc.field(default=None, metadata={"type": "Element"})
+    o: _t.Optional[object] = _dc.field(default=None, metadata={"type": "Element"})
+    w: _t.List[object] = _dc.field(default_factory=list, metadata={"type": "Wildcard", "namespace": "##other"})
+
+
+_NS = 'xmlns:xsi="http://www.w3.org/2001/XMLSchema-instance" xmlns:xs="http://www.w3.org/2001/XMLSchema"'
+FIXED_BASE = f'<host {_NS}><u k="1"><a>5</a></u><o xsi:type="xs:int">7</o><x:w xmlns:x="urn:w" xsi:type="xs:int">3</x:w></host>'
+FIXED = {   # injection -> (document, which option rejects it, does a tolerant parse warn)
+    "unknown-child-in-union-element": (FIXED_BASE.replace("<a>5</a>", "<a>5</a><zzz><q/></zzz>"), 0, False),
+    "unknown-attribute-in-union-element": (FIXED_BASE.replace('<u k="1">', '<u k="1" zz="1">'), 1, False),
+    "bad-value-in-object-element": (FIXED_BASE.replace(">7</o>", ">abc</o>"), 2, True),
+    "bad-value-in-wildcard-child": (FIXED_BASE.replace(">3</x:w>", ">abc</x:w>"), 2, True),
+}
+
+
+def fixed_cases():
+    for inj in FIXED:
+        for a in (False, True):
+            for b in (False, True):
+                for c in (False, True):
+                    for h in ("lxml", "native"):
+                        yield {"fam": "fixed", "inj": inj, "opts": [a, b, c], "handler": h}
+
+
+def execute_fixed(case, col):
+    doc, which, warns = FIXED[case["inj"]]
+    col.case(("fixed", case["inj"], case["opts"], case["handler"]), True, labels=["family:fixed-model", f"injection:{case['inj']}", f"handler:{case['handler']}"],
+             sample={"injected": doc, "options(props,attrs,conv)": case["opts"], "handler": case["handler"]})
+
+    def parse(text):
+        p = XmlParser(context=XmlContext(), handler=c01.HANDLERS[case["handler"]], config=config(case))
+        with warnings.catch_warnings(record=True) as w:
+            warnings.simplefilter("always")
+            try:
+                return ("ok", p.from_string(text, Host), [x.category for x in w])
+            except Exception as e:
+                return ("err", e, [])
+    base, got = parse(FIXED_BASE), parse(doc)
+    ctx = f"options(props,attrs,conv)={case['opts']} handler={case['handler']}\ninjected: {doc}"
+    if base[0] != "ok":
+        return [Failure("fixed/base-rejected", f"{base[1]!r}\n{ctx}", case)]
+    if case["opts"][which]:
+        if got[0] == "ok":
+            return [Failure(f"fixed/{case['inj']}/not-rejected", f"parsing succeeded although the option says fail\n{ctx}", case)]
+        if not isinstance(got[1], ParserError):
+            return [Failure(exc_sig(f"fixed/{case['inj']}/wrong-error", got[1]), f"{type(got[1]).__name__}: {got[1]} instead of ParserError\n{ctx}", case)]
+        return []
+    if got[0] == "err":
+        return [Failure(exc_sig(f"fixed/{case['inj']}/rejected-although-tolerant", got[1]), f"{type(got[1]).__name__}: {got[1]}\n{ctx}", case)]
+    if not warns and not deep_eq(got[1], base[1]):
+        return [Failure(f"fixed/{case['inj']}/object-changed", f"{first_diff(base[1], got[1])}\n{ctx}", case)]
+    if warns and not any(issubclass(c, ConverterWarning) for c in got[2]):
+        return [Failure(f"fixed/{case['inj']}/no-warning", f"unconvertible value accepted without a ConverterWarning\n{ctx}", case)]
+    if warns and "abc" not in repr(got[1]):
+        return [Failure(f"fixed/{case['inj']}/value-not-kept", f"the raw value is not kept: {got[1]!r}\n{ctx}", case)]
+    return []
+
+
 def plan(tier, seed):
     n, nsh = {"quick": (10000, 16), "thorough": (400000, 64)}[tier]
-    return [{"n": n // nsh, "seed": seed * 1000 + i} for i in range(nsh)]
+    return [{"n": n // nsh, "seed": seed * 1000 + i} for i in range(nsh)] + [{"fixed": True}]
 
 
 def run_shard(shard, col):
+    if shard.get("fixed"):
+        for case in fixed_cases():
+            for f in execute_fixed(case, col):
+                col.fail(f)
+        col.exhaustive.append("fixed model (union of classes, object element, wildcard child): 4 injections x 8 option combinations x 2 handlers")
+        return
     hyp_campaign(cases(), execute, shard["n"], shard["seed"], col)
 
 
